@@ -140,10 +140,16 @@ func checkAllPaths(mask int32, from, to uint64) *vk.Failure {
 	return nil
 }
 
+var scratch vk.Scratch
+
 func checkDecode(mask int32, bm []uint64) *vk.Failure {
 	want, _ := wantDecode(mask, bm)
 	keep := bm
-	bm = append(make([]uint64, 0, len(keep)), keep...) // the code under test gets a private copy
+	bm = append(make([]uint64, 0, len(keep)), keep...) // the code under test gets a private copy ...
+	reused := scratch.Reuse(vk.SumU64(keep) + uint64(mask))
+	if reused {
+		bm = scratch.U64(keep) // ... or a reused buffer (same address as earlier calls) with guarded spare capacity
+	}
 	var got []uint64
 	if f := vk.Try(fmt.Sprintf("Decode(%#x, %d words)", mask, len(bm)), func() { got = bmtree.Decode(mask, bm) }); f != nil {
 		return f
@@ -153,6 +159,11 @@ func checkDecode(mask int32, bm []uint64) *vk.Failure {
 	}
 	if !eq(bm, keep) {
 		return vk.Failf("decode-mutates", "Decode modified its bitmap argument")
+	}
+	if reused {
+		if msg := scratch.Check(); msg != "" {
+			return vk.Failf("argument-spare-capacity-written", "Decode: %s", msg)
+		}
 	}
 	// round trip: encode the decoded set through the library's own PathToIndex
 	enc := make([]uint64, (int(mask)+63)/64)
